@@ -1344,3 +1344,76 @@ func init() {
 		}
 	})
 }
+
+func init() {
+	reg := registry["C10"]
+	reg.Meta.Rules["C10.6"] = "on the cached-header paths the header that is modified and written is the cached one: below write/deleteAttributeWithCachedHeader no callee rewrites the object header from a copy it read itself (a function that reaches WriteObjectHeader without being handed the cached *ObjectHeader), and WriteObjectHeader receives the cached header"
+	reg.Rules = append(reg.Rules, func(c *Ctx, r *Result) {
+		var roots []*ssa.Function
+		for _, n := range []string{"hdf5.writeAttributeWithCachedHeader", "hdf5.deleteAttributeWithCachedHeader"} {
+			if f := c.Fn(r, n); f != nil {
+				roots = append(roots, f)
+			}
+		}
+		if len(roots) == 0 {
+			return
+		}
+		isOH := func(t types.Type) bool { return typeShort(t) == "*core.ObjectHeader" }
+		ohParam := func(f *ssa.Function) *ssa.Parameter {
+			for _, p := range f.Params {
+				if isOH(p.Type()) {
+					return p
+				}
+			}
+			return nil
+		}
+		set := c.Reach(roots, func(f *ssa.Function) bool { return shortPkg(fnPkgPath(f)) != "hdf5" || ohParam(f) == nil })
+		var fns []*ssa.Function
+		for f := range set {
+			if shortPkg(fnPkgPath(f)) == "hdf5" && ohParam(f) != nil && f.Blocks != nil {
+				fns = append(fns, f)
+			}
+		}
+		sort.Slice(fns, func(i, j int) bool { return c.Name(fns[i]) < c.Name(fns[j]) })
+		writesHeader := func(n string) bool { return n == "core.WriteObjectHeader" }
+		n := 0
+		for _, f := range fns {
+			cache := ohParam(f)
+			for _, site := range callsIn(f) {
+				name := c.calleeName(site)
+				g := site.Common().StaticCallee()
+				if g == nil {
+					continue
+				}
+				if name == "core.WriteObjectHeader" {
+					n++
+					ok := false
+					for _, a := range site.Common().Args {
+						if a == ssa.Value(cache) {
+							ok = true
+						}
+					}
+					r.Check(ok, "C10.6", c.Name(f)+"#writes-the-cached-header", c.InstrPos(site.(ssa.Instruction)), "WriteObjectHeader is given the cached header this function received")
+					continue
+				}
+				if !inModule(fnPkgPath(g)) || g.Blocks == nil {
+					continue
+				}
+				if !(writesHeader(c.Name(g)) || c.reachesCallee(g, writesHeader)) {
+					continue
+				}
+				n++
+				passes := false
+				for _, a := range site.Common().Args {
+					if a == ssa.Value(cache) {
+						passes = true
+					}
+				}
+				r.Check(passes, "C10.6", c.Name(f)+"#"+name+"#header-rewritten-through-the-cache", c.InstrPos(site.(ssa.Instruction)), name+" rewrites the object header; it must be handed the cached header (a callee that reads its own copy from the file leaves the cache stale, and the next write through the handle restores what was just changed)")
+			}
+		}
+		if n < 3 {
+			r.Errorf("C10.6: only %d header-writing call sites below the cached-header paths", n)
+		}
+	})
+}
